@@ -9,7 +9,7 @@ CHUNK = 50
 RULE = ('One evaluation = one seeded history with `gwf clean` (every combination of --all, -f, patterns, prompt answers y/n/empty; protect sets spelled plain, ./x, zz/../x, absolute, absolute-unnormalised; files that are outputs of one and inputs of another target; one unlink failing with EACCES in a quarter of the commands). Oracle M_clean from a before/after snapshot: removed == existing unprotected outputs of the selected non-excluded targets exactly, everything else byte- and mtime-identical, tracked jobs untouched, hashes of cleaned targets forgotten, declined prompt => nothing changed. Reference-model conformance over command histories rather than a schedule/fault property.')
 PROFILE = dict(
     nontrivial_probes=['clean_commands'],
-    backends=["slurm", "slurm", "sge", "lsf"],
+    backends=["slurm", "slurm", "sge", "lsf", "local"],
     sizes=[2, 3, 4, 5, 6, 8],
     protect=True, p_init_outputs=0.8,
     weights=dict(clean=4, clean_io_fault=0.25, run=1, start=1, finish=1.5, set_file=1.5, delete_output=0.5, touch=0.5,
